@@ -772,7 +772,7 @@ impl Constructor {
         }
     }
 
-    fn arity(&self, matrix_tys: &[Type]) -> usize {
+    fn arity(&self, matrix_tys: &[Type], statics: &StaticsContext) -> usize {
         match self {
             Constructor::Bool(..)
             | Constructor::Int(..)
@@ -791,7 +791,18 @@ impl Constructor {
                     0 => 0,
                     1 => match &*variant.fields[0].ty.kind {
                         TypeKind::Void => 0,
-                        _ => 1,
+                        // a type parameter instantiated with void (`option<void>`) has no column either
+                        _ => match &matrix_tys[0] {
+                            Type::Nominal(_, args)
+                                if matches!(
+                                    data_ty_of_variant(statics, enum_def, args, *idx),
+                                    Type::Void
+                                ) =>
+                            {
+                                0
+                            }
+                            _ => 1,
+                        },
                     },
                     // Multi-field variants are represented as a single tuple
                     // in the matrix, so arity is 1.
@@ -1090,7 +1101,7 @@ fn compute_exhaustiveness_and_usefulness(
     }
 
     for ctor in present_ctors {
-        let ctor_arity = ctor.arity(&matrix.types);
+        let ctor_arity = ctor.arity(&matrix.types, statics);
 
         let mut specialized_matrix = matrix.specialize(&ctor, ctor_arity, statics);
 
